@@ -285,7 +285,7 @@ def _gen_oracle_ops(name, v, n, d):
     return g(v, n)
 
 
-def _alt_lean(confs):
+def _alt_lean(confs, path_ok=None):
     """render the generated configurations as Lean and state their well-formedness obligations"""
     gen_dir = os.path.join(core.LEAN, "Spil", "Generated")
     names = []
@@ -298,7 +298,7 @@ def _alt_lean(confs):
         names.append(name)
     lines = ["/- GENERATED on every C20 run: kernel-checked conventions of the generated configurations -/"]
     lines += ["import Spil.Generated.Alt%d" % i for i in range(len(confs))]
-    lines += ["import Spil.Spec.Sid", "import Spil.Props.Tie", "open Generated", "namespace AltWF"]
+    lines += ["import Spil.Spec.Sid", "import Spil.Spec.PathWF", "import Spil.Props.Tie", "open Generated", "namespace AltWF"]
     for i, (n, c) in enumerate(zip(names, confs)):
         lines.append("theorem %s_wf : Spec.sidHierOk %sEnv %sConf.sid.templates = true := by decide +kernel" % (n, n, n))
         lines.append("theorem %s_compile : Tie.compiled %sSidTemplates = %sSidRegexes := by decide +kernel" % (n, n, n))
@@ -306,6 +306,13 @@ def _alt_lean(confs):
         for pc in c["conf"]["paths"]:
             pn = "%sPath_%s" % (n, pc["name"])
             lines.append("theorem %s_compile : Tie.compiled %sTemplates = %sRegexes := by decide +kernel" % (pn, pn, pn))
+            # the conventions C05 / C06 are proved under, for the generated path configurations that follow them
+            # (the driver says which do; the kernel re-checks it): the theorems then speak about this configuration
+            ok = (path_ok or {}).get((i, pc["name"]))
+            if ok and ok[0]:
+                lines.append("theorem %s_wf : Spec.pathConfOk %sEnv %s = true := by decide +kernel" % (pn, n, pn))
+            if ok and ok[1]:
+                lines.append("theorem %s_exclusive : Spec.pathsExclusive %sEnv %sConf.sid.searchSymbols %s = true := by decide +kernel" % (pn, n, n, pn))
     lines.append("end AltWF")
     path = os.path.join(gen_dir, "AltWF.lean")
     text = "\n".join(lines) + "\n"
@@ -361,8 +368,19 @@ def oracle_C20(run, n, fams=None, oracles=None, tag="C20", kernel=True):
         confs.append(c); envs.append(st); specs.append(idx)
     # kernel obligations for the first two generated configurations (all of them in the thorough tier)
     k = len(confs) if run.tier == "thorough" else min(2, len(confs))
+    path_ok = {}
+    for i, c in enumerate(confs):
+        a = core.run_model(c, [{"op": "spec_path_ok"}])[0].get("ok") or []
+        for name_, wf, excl in a:
+            path_ok[(i, name_)] = (wf, excl)
+            stats["path_configurations"] += 1
+            stats["path_conventions_hold"] += int(bool(wf and excl))
+        if any(not (wf and excl) for _, wf, excl in a):
+            run.notes.append("generated configuration %d: path configurations %r do not follow Spec.pathConfOk / pathsExclusive "
+                             "(two disk words for one sid value, or a default for a free key): C05 / C06 are not PROVED for them, "
+                             "they are covered by the correspondence and the oracles only" % (specs[i], [n_ for n_, wf, excl in a if not (wf and excl)]))
     if kernel:
-        thms = _alt_lean(confs[:k])
+        thms = _alt_lean(confs[:k], path_ok)
         ok, out = core.lake_build(["Spil.Generated.AltWF"])
         run.cov["obligations"] = run.cov.get("obligations", 0) + len(thms)
         if ok:
@@ -457,9 +475,11 @@ def oracle_ALTP(run, n):
 
 
 def _unmodelled_paths(run, idx=0):
-    """ORACLE ONLY (no model, no theorem): the C05 / C06 statements evaluated on the real code under a generated
-    configuration that uses the two path features the model does not have — extra path keys computed from a sid
-    key (sidkeys_to_extrakeys / extrakeys_to_sidkeys) and a value mapping for one type only (path_mapping[(key, type)])"""
+    """NO THEOREM: a generated configuration that uses the two path features the shipped ones leave empty — extra
+    path keys computed from a sid key (sidkeys_to_extrakeys / extrakeys_to_sidkeys) and a value mapping for one type
+    only (path_mapping[(key, type)]).  The whole-code path model (Spil.Model.PathX, proved equal to the model of the
+    theorems wherever the features are unused) is run against the implementation on the paths family, and the C05 /
+    C06 statements are evaluated on the real code by the property oracles."""
     fails = []
     stats = collections.Counter()
     spec, st, c, err = _alt_conf(run.seed, idx, unmodelled=True)
@@ -467,6 +487,24 @@ def _unmodelled_paths(run, idx=0):
         run.notes.append("configuration with unmodelled path features could not be read: %s" % (err or "")[-300:])
         return fails
     stats["unmodelled_features"] = len(c.get("unmodelled") or [])
+    # path_to_dict / dict_to_path WITH these features are modelled (Spil.Model.PathX): model against implementation
+    rng = random.Random("C20/%s/%d/u/paths" % (run.seed, idx))
+    v = gen.Vocab(c, rng)
+    ops = _gen_ops("paths", v, 150, c)
+    m = core.run_model(c, ops)
+    i = core.run_impl(ops, st=st)
+    for op, a, b in zip(ops, m, i):
+        stats["ops"] += 1
+        if a.get("oom"):
+            continue
+        r = core.agree(op, a, b)
+        if r:
+            stats["disagreements"] += 1
+            fails.append(("C20", {"seed": run.seed, "alt": idx, "unmodelled": True, "family": "paths", "op": op},
+                          ["model (PathX) and implementation disagree under the configuration with extra keys / typed mapping: %s" % r]))
+            break
+        run.nontrivial.add(core.digest(["u", idx, op]))
+    run.cov["evaluations"] += len(ops)
     for name, nn in [("C05", 250), ("C06", 300)]:
         rng = random.Random("C20/%s/%d/u/%s" % (run.seed, idx, name))
         v = gen.Vocab(c, rng)
@@ -490,7 +528,7 @@ def _unmodelled_paths(run, idx=0):
                 break
             run.nontrivial.add(core.digest(["u", idx, op["input"]]))
         run.cov["evaluations"] += len(ops)
-    run.cov["oracles"]["ALTP_unmodelled_features(oracle only)"] = dict(stats)
+    run.cov["oracles"]["ALTP_extra_keys_typed_mapping(model PathX + oracles, no theorem)"] = dict(stats)
     return fails
 
 
